@@ -5,7 +5,9 @@ package main
 // counts the race detector's reports from its log files.
 
 import (
+	"bytes"
 	"context"
+	"crypto/sha256"
 	"fmt"
 	"math/rand"
 	"sync"
@@ -39,9 +41,9 @@ func jitter(seed int64) func(simnet.Link) {
 }
 
 func unitC20core(e common.Env, p *common.Part) {
-	p.Rule = "race-detector build; real Loud/Silent schemes with scripted backends on the simulated network in concurrent mode (one dispatcher goroutine per link, PRNG micro-delays of 20..150 us and yields); scenarios: staggered first calls (peers' traffic reaches a node before and while its first KeyGen/Sign sets up), duplicated transmissions, 2-3 sessions at once on different topics, SetStoredData followed by Sign from another goroutine, cancelled sessions followed by new ones, key generations that complete while three signing sessions on other topics synchronise, signing sessions cancelled while one signer's continuation is held between the registration of its handlers and its second synchronisation (the continuation is let go after the calls have returned), four goroutines per node calling KeyGen and Sign on one scheme object with contexts that are over or end within microseconds, the synchronisation traffic of a finished key generation re-sent continuously from its origins while further key generations start (stale queries and announcements with valid tags reach a node before and while its Synchronize sets up); repeated because reports vary per run; distinct key = (scenario, repetition, delivery-order hash); non-trivial when >=2 dispatcher goroutines were active"
+	p.Rule = "race-detector build; real Loud/Silent schemes with scripted backends on the simulated network in concurrent mode (one dispatcher goroutine per link, PRNG micro-delays of 20..150 us and yields); scenarios: staggered first calls (peers' traffic reaches a node before and while its first KeyGen/Sign sets up), duplicated transmissions, 2-3 sessions at once on different topics, SetStoredData followed by Sign from another goroutine, cancelled sessions followed by new ones, key generations that complete while three signing sessions on other topics synchronise, four configured non-participants sending protocol-type messages on a live signing session's topic to both signers at once, signing sessions cancelled while one signer's continuation is held between the registration of its handlers and its second synchronisation (the continuation is let go after the calls have returned), four goroutines per node calling KeyGen and Sign on one scheme object with contexts that are over or end within microseconds, the synchronisation traffic of a finished key generation re-sent continuously from its origins while further key generations start (stale queries and announcements with valid tags reach a node before and while its Synchronize sets up); repeated because reports vary per run; distinct key = (scenario, repetition, delivery-order hash); non-trivial when >=2 dispatcher goroutines were active"
 	reps := e.Pick(12, 120)
-	scen := []string{"staggered-keygen-loud", "staggered-keygen-silent", "sign-concurrent-topics", "duplicates", "setdata-then-sign", "cancel-then-retry", "msgbox-with-ticking-clock", "stale-sync-flood-loud", "stale-sync-flood-silent", "api-calls-from-several-goroutines", "keygen-while-signing-on-other-topics", "sign-cancelled-between-its-synchronisations"}
+	scen := []string{"staggered-keygen-loud", "staggered-keygen-silent", "sign-concurrent-topics", "duplicates", "setdata-then-sign", "cancel-then-retry", "msgbox-with-ticking-clock", "stale-sync-flood-loud", "stale-sync-flood-silent", "api-calls-from-several-goroutines", "keygen-while-signing-on-other-topics", "sign-cancelled-between-its-synchronisations", "outsiders-during-sign"}
 	idx := 0
 	for r := 0; r < reps; r++ {
 		for _, sc := range scen {
@@ -222,6 +224,56 @@ func runC20core(sc string, rep int, rng *rand.Rand) (string, int) {
 		}
 		close(stop)
 		fw.Wait()
+	case "outsiders-during-sign":
+		// a six-node universe, two signers: while their session is live (one of them held right after its handlers were registered),
+		// the four configured members that are NOT participants each send protocol-type messages on the session's topic to both
+		// signers, one dispatcher goroutine per link - everything the refusal of such traffic touches is touched from several goroutines
+		{
+			all := []uint16{1, 2, 3, 4, 5, 6}
+			c2 := cluster.New(cluster.Config{Map: identityMapC(all), Threshold: 1, Script: backend.Script{Rounds: []uint8{1}, Bcast: true, P2P: true}})
+			c2.Net.KeepData = false
+			c2.Net.StartConcurrent()
+			for round := 0; round < 3; round++ {
+				var parked int32
+				release := make(chan struct{})
+				threshold.SetVerifHook(func(pt string) {
+					if pt == "sign.afterPrepare" && atomic.CompareAndSwapInt32(&parked, 0, 1) {
+						<-release
+					}
+				})
+				t := fmt.Sprintf("ods-%d-%d", rep, round)
+				th := sha256.Sum256([]byte(t))
+				cx, cn := context.WithTimeout(ctx, 800*time.Millisecond)
+				var sw sync.WaitGroup
+				for _, u := range []uint16{1, 2} {
+					u := u
+					c2.Schemes[u].SetStoredData([]byte("share-of-x"))
+					sw.Add(1)
+					go func() {
+						defer sw.Done()
+						c2.Schemes[u].Sign(cx, []byte("digest-0123456789abcdef0123456789"), t)
+					}()
+				}
+				deadline := time.Now().Add(500 * time.Millisecond)
+				for atomic.LoadInt32(&parked) == 0 && time.Now().Before(deadline) {
+					time.Sleep(100 * time.Microsecond)
+				}
+				for k := 0; k < 3; k++ {
+					for _, o := range []uint16{3, 4, 5, 6} {
+						for _, d := range []uint16{1, 2} {
+							c2.Net.Inject(o, simnet.Outgoing{Dst: d, Type: uint8(tss.MsgTypeMPC), Topic: th[:], Data: append([]byte{1, 0, 1}, bytes.Repeat([]byte{byte(o) + byte(k)}, 32)...), Tag: "outsider"}) // a well-formed acknowledgement
+						}
+					}
+				}
+				time.Sleep(3 * time.Millisecond)
+				close(release)
+				sw.Wait()
+				cn()
+				threshold.SetVerifHook(func(string) {})
+			}
+			c2.Net.Stop()
+		}
+		keygen(ctx)
 	case "sign-cancelled-between-its-synchronisations":
 		// the first signer to have registered the handlers of its session is held there (verif point), every caller's context is
 		// cancelled, the calls return and clean up meanwhile, and 2 ms later the continuation is let go - without waiting for the calls, so
